@@ -620,6 +620,7 @@ func runC12(c *Ctx) {
 		}
 		c.Check(fname(vr)+"#answers-from-a-header", vr.Pos(), nRet > 0 && badRet == "", ifelse(nRet > 0 && badRet == "", fmt.Sprintf("all %d answering returns derive from Versions[header.CurrVersion]", nRet), "the return at "+badRet+" answers with a version that is not read from a header's CurrVersion (a value remembered per round): headers of a batch that was verified and dropped, or of another fork, decide the version in force for the canonical chain"))
 	}
+	c12ChainedParent(c, c.W)
 }
 
 // c12Builder: the block builder derives the new header from the unmodified parent.
@@ -799,4 +800,53 @@ func inlineBoolHelpers(facts []Fact, depth int) []Fact {
 		out = append(out, inlineBoolHelpers(ways[0], depth-1)...)
 	}
 	return out
+}
+
+// c12ChainedParent (W4): a batch verifier checks each header against the header before it.
+func c12ChainedParent(c *Ctx, w *World) {
+	c.Rule("C12.W4", "SAME-VALUE", "along any chain each header is checked against its own parent: in the batch verifiers (VerifyYouVersionState2 and its siblings that loop over headers / blocks) the parent handed to VerifyYouVersionState is carried around the loop, and on EVERY way back to the loop head the carried value is the header that was just handled — also on a `continue`. A skipped element that leaves the carried parent behind lets the next header be judged against a stale ancestor: a restarted voting window is accepted, an honest header is rejected")
+	c.Min(1)
+	vf := w.FuncObj("core", "", "VerifyYouVersionState")
+	n := 0
+	for _, fn := range w.FuncsIn("core") {
+		if fn.Blocks == nil || strings.HasSuffix(w.fileOf(fn.Pos()), "_test.go") {
+			continue
+		}
+		for _, ci := range callsTo(fn, vf) {
+			args := callArgs(ci)
+			if len(args) < 2 {
+				continue
+			}
+			ph, ok := stripConvNoBind(args[0]).(*ssa.Phi)
+			if !ok || !isLoopHeader(ph.Block()) {
+				continue
+			}
+			n++
+			c.sites++
+			c.sawFunc(fname(fn))
+			// what does "the element just handled" look like: the second argument, or the value it was derived from
+			cur := stripConvNoBind(args[1])
+			bad := ""
+			for i, pb := range ph.Block().Preds {
+				if !ph.Block().Dominates(pb) {
+					continue // loop entry
+				}
+				e := stripConvNoBind(ph.Edges[i])
+				same := e == cur || samePath(e, cur) || derivesFrom(e, func(x ssa.Value) bool { return x == cur }) || derivesFrom(cur, func(x ssa.Value) bool { return x == e })
+				if e == ssa.Value(ph) {
+					same = false
+				}
+				if !same {
+					bad = fmt.Sprintf("block %d", pb.Index)
+					if t := pb.Instrs[len(pb.Instrs)-1]; t.Pos().IsValid() {
+						bad = w.Pos(t.Pos())
+					}
+				}
+			}
+			c.Check(fmt.Sprintf("%s#carried-parent-is-the-previous-element", fname(fn)), ci.Pos(), bad == "", ifelse(bad == "", "every back edge of the loop carries the element just handled as the next parent", "the loop can start its next round ("+bad+") without making the element it just handled the parent of the next one: the next header is verified against a stale ancestor"))
+		}
+	}
+	if n == 0 {
+		c.Undecided("core#batch-version-verifiers", token.NoPos, "no loop that carries the parent of VerifyYouVersionState found in package core (VerifyYouVersionState2 is expected)")
+	}
 }
